@@ -9,6 +9,7 @@ import CSD.Driver.Dict
 import CSD.Driver.Comp
 import CSD.Driver.Kinds
 import CSD.Driver.Check
+import CSD.Driver.Chunks
 
 open CSD CSD.Driver
 
@@ -22,6 +23,7 @@ def runCase (c : Case) : IO Unit := do
   | "dac" => runDac c emit
   | "pool" => runPool c emit
   | "codes" | "bits" | "repair" | "rpdac" => runCheckStreams c emit
+  | "chunks" => runChunkStream c emit
   | _ => emit 1 s!"ERR unknown-stream {c.stream}"
 
 partial def loop (h : IO.FS.Stream) (cur : Option Case) : IO Unit := do
